@@ -130,6 +130,16 @@ claim("C15", "proof",
       "the sense that the byte is an argument of the state term; entry block positions sampled in the quick tier.",
       "CBMC: harness-asserted postconditions over specification stubs, ghost call counters", "4/C15")
 
+claim("C05", "proof",
+      "HKDF/HKDFA are checked against RFC 5869 over an abstract HMAC (extract; expand from an arbitrary expansion state "
+      "including the wrapped counter: -1 and zero fill; the one-shot 255-block refusal with nothing written), and "
+      "KDF/KDFA, KMAC/KMACA and PBKDF2 against their definitions over the customised XOF (RFC 8018 iteration: big-endian "
+      "block index from 1, xor of the U values, count 0 as 1, truncated last block) with all data symbolic.",
+      "Plain-assertion groups over specification stubs / an abstract HMAC model with enumerated lengths, positions and "
+      "iteration counts (counts 0..3, requests up to ~100 bytes, the refusal boundary); PBKDF2-HMAC is not covered; the "
+      "HKDF reference is sensitive to how the three HMAC update pieces are chunked.",
+      "CBMC: harness-asserted postconditions over specification stubs and an uninterpreted HMAC model", "4/C05")
+
 NA_DEFAULT = {
     "C11": "secret-independence of control flow and addresses is a relational (2-safety) property of the shipped object code; a CBMC contract describes one execution of the C source and has no taint or relational mode (DESIGN section 6)",
     "C17": "compilability of C++ members is a compiler verdict, and CBMC's C++ front end rejects this repository's C++ (DESIGN 2.8, section 6)",
